@@ -17,6 +17,14 @@ Checked and fail-closed (Unsupported) rather than emitted, because coq/Model/Pro
     `self._lock_fd`, closed on refusal, unlocked and closed by release() is that one descriptor;
   * unlock uses the same primitive as the attempt;
   * no other call (helper methods, other fcntl / os / threading primitives, unlink ...) occurs on these paths;
+  * ONE INODE: Model/ProcLock.v has one lock object -- every handle's os.open reaches the same inode for the life of the
+    table.  That holds only if nothing unlinks / renames / replaces the lock file, so the rest of FileLock is inspected too
+    (_single_inode): __init__ calls nothing; acquire() calls only os.path.dirname(self.lock_file), os.makedirs(lock_dir,
+    exist_ok=True), the clock, the sleep, TimeoutError and the attempt; __enter__ / __exit__ / __del__ only delegate to
+    acquire() / release(); FileLock has no method besides these; no module-level code of file_lock.py touches a path; and in
+    the rest of the package the lock file's path is mentioned exactly once (MetadataManager: create_lock(".locks/metadata.lock"))
+    and no module reads FileLock.lock_file.  (Not covered lexically: code that deletes files it finds by LISTING the table
+    directory; the harness's lock-layer trace reports any unlink / rename of the lock file at run time.)
   * every LocalLockProvider owns ONE FileLock of its own (`self.lock = FileLock(lock_path, timeout)`) and delegates
     acquire / release / is_held to it (a handle of the model = a FileLock instance = a lock provider = a Table handle).
 
@@ -289,6 +297,77 @@ def _provider(lp: ast.Module, flc: ast.ClassDef) -> None:
         raise Unsupported(f"FileLock.acquire calls {calls} (expected only the attempt loop over self._try_acquire_once())")
 
 
+# ---- the single-inode assumption of Model/ProcLock.v (one lock object): nothing may unlink / rename / recreate the lock file
+FILELOCK_METHODS = {"__init__", "is_held", "acquire", "_try_acquire_once", "_try_acquire_excl_fallback", "release",
+                    "__enter__", "__exit__", "__del__"}
+ACQUIRE_CALLS = {"os.path.dirname(self.lock_file)", "os.makedirs(lock_dir, exist_ok=True)", "time.monotonic()",
+                 "time.sleep(self._POLL_INTERVAL)", "self._try_acquire_once()"}
+LOCK_PATH_SITES = {("metadata_manager.py", ".locks/metadata.lock")}
+
+
+def _calls(fn: ast.AST) -> List[ast.Call]:
+    return [c for c in ast.walk(fn) if isinstance(c, ast.Call)]
+
+
+def _single_inode(src: str, fl: ast.Module, flc: ast.ClassDef) -> None:
+    import os as _os
+    import re as _re
+    methods = {n.name: n for n in flc.body if isinstance(n, (ast.FunctionDef, ast.AsyncFunctionDef))}
+    extra = sorted(set(methods) - FILELOCK_METHODS)
+    if extra:
+        raise Unsupported(f"FileLock has methods outside the modelled handle program: {extra}")
+    for n in flc.body:
+        if not isinstance(n, (ast.FunctionDef, ast.Assign, ast.AnnAssign)) and not (isinstance(n, ast.Expr) and isinstance(n.value, ast.Constant)):
+            raise Unsupported(f"FileLock: class-level statement {_u(n)[:80]}")
+        if isinstance(n, (ast.Assign, ast.AnnAssign)) and _calls(n):
+            raise Unsupported(f"FileLock: class-level call {_u(n)[:80]}")
+    init = methods.get("__init__")
+    if init is None or _calls(init):
+        raise Unsupported(f"FileLock.__init__ calls {[_u(c) for c in _calls(init)] if init else 'nothing: missing'} (expected: no call)")
+    for c in _calls(methods["acquire"]):
+        nm = _callname(c)
+        if _u(c) in ACQUIRE_CALLS or nm.startswith("logger.") or nm == "TimeoutError":
+            if nm == "TimeoutError":
+                for a in list(c.args) + [k.value for k in c.keywords]:
+                    if any(isinstance(x, ast.Call) for x in ast.walk(a)):
+                        raise Unsupported(f"FileLock.acquire: call inside the TimeoutError message: {_u(c)}")
+            continue
+        raise Unsupported(f"FileLock.acquire: call outside the lock vocabulary (the lock file must stay ONE inode: no unlink / "
+                          f"rename / re-creation; expected only {sorted(ACQUIRE_CALLS)}): {_u(c)}")
+    want = {"__enter__": ["self.acquire()", "return self"], "__exit__": ["self.release()"]}
+    for name, stmts in want.items():
+        if name in methods and [_u(x) for x in strip_docstring(methods[name].body)] != stmts:
+            raise Unsupported(f"FileLock.{name} is not {stmts}")
+    if "__del__" in methods:
+        b = strip_docstring(methods["__del__"].body)
+        if not (len(b) == 1 and isinstance(b[0], ast.If) and _u(b[0].test) == "self._locked" and not b[0].orelse
+                and [_u(x) for x in b[0].body] == ["self.release()"]):
+            raise Unsupported("FileLock.__del__ is not `if self._locked: self.release()`")
+    # module level of file_lock.py: imports, platform flags, the logger, the class, and helpers that only go through FileLock
+    for n in fl.body:
+        if isinstance(n, ast.ClassDef) and n.name == "FileLock":
+            continue
+        for c in _calls(n):
+            nm = _callname(c)
+            if nm.startswith(("os.", "shutil.", "fcntl.", "pathlib.", "msvcrt.")) or nm in ("open", "Path"):
+                raise Unsupported(f"file_lock.py: module-level code outside class FileLock calls {_u(c)}")
+    # the rest of the package: the lock file's path is named once, FileLock.lock_file is read nowhere
+    pat = _re.compile(r"\.locks?(/|$|\b)")
+    for dirpath, _dirs, files in _os.walk(src):
+        for f in sorted(files):
+            if not f.endswith(".py") or f == "file_lock.py":
+                continue
+            rel = _os.path.relpath(_os.path.join(dirpath, f), src)
+            mod = parse_module(src, rel)
+            doc = {id(n.value) for n in ast.walk(mod) if isinstance(n, ast.Expr) and isinstance(n.value, ast.Constant)}
+            for n in ast.walk(mod):
+                if isinstance(n, ast.Constant) and isinstance(n.value, str) and id(n) not in doc and pat.search(n.value):
+                    if (rel, n.value) not in LOCK_PATH_SITES:
+                        raise Unsupported(f"{rel}: mentions a lock-file path outside the known site: {n.value!r}")
+                if isinstance(n, ast.Attribute) and n.attr == "lock_file":
+                    raise Unsupported(f"{rel}: reads FileLock.lock_file ({_u(n)}): the lock file may be touched outside FileLock")
+
+
 @generator("GenFileLock.v")
 def gen(src: str) -> str:
     fl = parse_module(src, "file_lock.py")
@@ -304,6 +383,7 @@ def gen(src: str) -> str:
     if prim_a != prim_r:
         raise Unsupported(f"the lock is taken with fcntl.{prim_a} and released with fcntl.{prim_r}")
     _provider(lp, flc)
+    _single_inode(src, fl, flc)
     out = [
         "(* GENERATED by translator/gen_filelock.py from file_lock.py / lock_provider.py -- do not edit. *)",
         "From Coq Require Import List Bool.",
